@@ -13,7 +13,7 @@ from .c08 import kfull
 
 # ============================================================================ C14
 
-def _spectral(rs, shp, n, gaps, balanced=False):
+def _spectral(rs, shp, n, gaps, balanced=False, decay=0.5):
     """Tensor whose mode-n unfolding has prescribed, well separated singular values.  balanced: the leading
     mode-n vectors are (1,..,1)/sqrt(d) and (1,-1,0,..)/sqrt(2) (largest and most negative entry of equal size)."""
     d = shp[n]
@@ -29,7 +29,7 @@ def _spectral(rs, shp, n, gaps, balanced=False):
         U[:, 0] *= np.sign(U[0, 0])
         U[:, 1] *= np.sign(U[0, 1])
     V = np.linalg.qr(rs.randn(rest, rest))[0]
-    s = np.array([10.0 * (0.5 ** i) for i in range(k)])
+    s = np.array([10.0 * (decay ** i) for i in range(k)])
     Xn = (U[:, :k] * s) @ V[:, :k].T
     order = [n] + [m for m in range(len(shp)) if m != n]
     X = Xn.reshape([shp[m] for m in order], order="F")
@@ -57,6 +57,13 @@ class _:
                     for kind in ("tensor", "sptensor"):
                         for where in ("last", "first"):
                             yield dict(shape=list(shp), n=n, r=r, flip=True, kind=kind, empty_slice=where, seed=rng.randrange(10**6))
+        # data held in another element type: single precision with a steep spectrum (the third eigenvalue of the Gram
+        # matrix is 1e-8 of the first: lost if the Gram matrix is formed in single precision), small integers
+        for shp in [(6, 5, 4), (5, 6)]:
+            for n in range(len(shp)):
+                for r in (1, 3, shp[n]):
+                    yield dict(shape=list(shp), n=n, r=r, flip=True, kind="tensor", dtype="float32", decay=1e-2, seed=rng.randrange(10**6))
+                    yield dict(shape=list(shp), n=n, r=r, flip=True, kind="tensor", dtype="int16", seed=rng.randrange(10**6))
         # leading vectors whose largest and most negative entries have the same magnitude (sign rule ties)
         for shp in [(2, 3, 2), (4, 3), (3, 2, 2)]:
             for n in range(len(shp)):
@@ -70,13 +77,17 @@ class _:
         shp, n, r, kind = tuple(case["shape"]), case["n"], case["r"], case["kind"]
         N = len(shp)
         if kind in ("tensor", "sptensor"):
-            X, _, _ = _spectral(rs, shp, n, None, case.get("balanced", False))
+            X, _, _ = _spectral(rs, shp, n, None, case.get("balanced", False), case.get("decay", 0.5))
+            if case.get("dtype"):
+                # data held in single precision (or as integers): the vectors are those of the real values stored
+                X = (np.round(X * 200) if case["dtype"].startswith("int") else X).astype(case["dtype"])
+                Xs, X = X, X.astype(float)
             if case.get("empty_slice"):
                 sl = [slice(None)] * N
                 sl[n] = shp[n] - 1 if case["empty_slice"] == "last" else 0
                 X = X.copy()
                 X[tuple(sl)] = 0.0
-            obj = ttb.tensor(X.copy())
+            obj = ttb.tensor(Xs.copy() if case.get("dtype") else X.copy())
             if kind == "sptensor":
                 obj = obj.to_sptensor()
         elif kind == "ktensor":
@@ -203,6 +214,25 @@ class _:
                 raise Fail("ktensor.symmetrize:not-idempotent", f"{case}")
             if bool(Ksym.issymmetric()) is not True or bool(K.issymmetric()) is not False:
                 raise Fail("ktensor.issymmetric", f"{case}")
+            # a padded (all-zero) component: in every factor (the tensor is still symmetric and keeps its value) and in
+            # one factor only (the component contributes nothing; the result is symmetric and finite)
+            Az = np.hstack([A, np.zeros((d, 1))])
+            wz = np.append(w, 1.5)
+            Kz = ttb.ktensor([Az.copy() for _ in range(N)], wz.copy())
+            Sz = Kz.symmetrize()
+            Yz = kfull([np.asarray(f) for f in Sz.factor_matrices], np.asarray(Sz.weights))
+            if not np.isfinite(Yz).all() or not same(Yz, X, 1e-9):
+                raise Fail("ktensor.symmetrize:zero-component-changes-symmetric-input", f"{case}")
+            Fz = [rs.rand(d, R + 1) + 0.2 for _ in range(N)]
+            Fz[N - 1][:, R] = 0.0
+            Kz = ttb.ktensor([f.copy() for f in Fz], wz.copy())
+            Sz = Kz.symmetrize()
+            Yz = kfull([np.asarray(f) for f in Sz.factor_matrices], np.asarray(Sz.weights))
+            if not np.isfinite(Yz).all() or not _is_close_sym(Yz) or not Sz.issymmetric():
+                raise Fail("ktensor.symmetrize:zero-column", f"{case}")
+            Sz2 = Sz.copy().symmetrize()
+            if not same(kfull([np.asarray(f) for f in Sz2.factor_matrices], np.asarray(Sz2.weights)), Yz, 1e-9):
+                raise Fail("ktensor.symmetrize:zero-column:not-idempotent", f"{case}")
             # the test is exact: factors that differ by a rounding-size amount / by a small relative amount on large
             # entries are not symmetric
             for eps, scale in ((1e-9, 1.0), (1.0, 1e5)):
@@ -293,6 +323,15 @@ class _:
         shp, kind = tuple(case["shape"]), case["kind"]
         with tempfile.TemporaryDirectory() as d:
             path = os.path.join(d, "obj.tns")
+            # earlier in the same process an object of the same kind and order was written with a coarse, caller-chosen
+            # number format: the default export that follows must not be affected by it
+            pre = os.path.join(d, "earlier.tns")
+            ones = [np.ones((dd, 2)) for dd in shp]
+            earlier = {"tensor": lambda: ttb.tensor(np.full(shp, 2.0)),
+                       "sptensor": lambda: ttb.tensor(np.full(shp, 3.0)).to_sptensor(),
+                       "ktensor": lambda: ttb.ktensor(ones, np.ones(2)),
+                       "matrix": lambda: np.full(shp, 4.0)}[kind]()
+            ttb.export_data(earlier, pre, fmt_data="%d", fmt_weights="%d")
             if kind == "tensor":
                 X = _vals(rs, int(np.prod(shp))).reshape(shp)
                 ttb.export_data(ttb.tensor(X.copy()), path)
@@ -376,7 +415,7 @@ class _:
                 yield dict(kind="sprand", shape=list(shp), frac=frac, seed=rng.randrange(10**6))
             for rep in range(3):
                 yield dict(kind="agg", shape=list(shp), seed=rng.randrange(10**6), reducer=rng.choice(["sum", "max", "min", "len"]))
-        for n, sz in ((2, 2), (2, 3), (4, 2)):
+        for n, sz in ((2, 2), (2, 3), (4, 2), (4, 3), (6, 2), (2, 1), (4, 1), (6, 3)):
             yield dict(kind="eye", n=n, sz=sz, seed=rng.randrange(10**6))
         for nel in (1, 2, 3):
             yield dict(kind="diag-default", nel=nel, seed=0)
